@@ -16,7 +16,7 @@ import scipy.sparse as sp
 from vf import msmcommon as mc
 from vf import clustercommon as cc
 
-RULE = ('cases = one routine of a 48-entry registry of the numerical API with '
+RULE = ('cases = one routine of a 61-entry registry of the numerical API with '
         'seeded arguments (including the degenerate ones that create masked '
         'cells: zero probabilities, all-zero joint-count blocks, zero rows); '
         'each argument tuple is evaluated 6 times in one process: heap fill '
@@ -246,7 +246,7 @@ def build_registry():
 
     def g_assign(rng):
         X = g_data(rng)
-        k = int(rng.integers(1, 6))
+        k = min(int(rng.integers(1, 6)), len(X))
         return (X, [X[i].copy() for i in rng.choice(len(X), k, replace=False)],
                 E.libdist.euclidean), {}, False
     reg('assign_to_nearest_center', E.util.assign_to_nearest_center, g_assign)
@@ -406,6 +406,48 @@ def build_registry():
             {}, True
     reg('kl_divergence', E.entropy.kl_divergence, g_pq)
     reg('js_divergence', E.entropy.js_divergence, g_pq)
+
+    # --- the same routines through their optional arguments
+    reg('trim_disconnected[inplace]', E.tm.trim_disconnected, lambda rng: (
+        (lambda C: (mc.to_container(np.where(
+            rng.random(C.shape) < 0.4, 0, C), ['ndarray', 'ndarray', 'csr'][
+                int(rng.integers(0, 3))], rng),))(
+            mc.strongly_connected_counts(rng, nmin=3, nmax=9, real=False)),
+        {'renumber_states': False, 'threshold': int(rng.integers(1, 3))},
+        False))
+    reg('builders.normalize[prior]', E.builders.normalize, lambda rng: (
+        g_counts()(rng)[0], {'prior_counts': [1, 0.5][int(rng.integers(0, 2))],
+                             'calculate_eq_probs': bool(rng.random() < 0.5)},
+        False))
+    reg('builders.transpose[prior]', E.builders.transpose, lambda rng: (
+        g_counts()(rng)[0], {'prior_counts': 1,
+                             'calculate_eq_probs': bool(rng.random() < 0.5)},
+        False))
+
+    def g_kc2(rng):
+        X = g_data(rng)
+        init = [X[i].copy() for i in rng.choice(len(X), 2, replace=False)]
+        return (X, 'euclidean'), {
+            'n_clusters': int(rng.integers(3, 7)), 'init_centers': init,
+            'dist_cutoff': float(np.abs(X).max() * 0.2),
+            'use_triangle_inequality': bool(rng.random() < 0.5)}, False
+    reg('kcenters[init,cutoff]',
+        lambda *a, **k: tuple(E.kcenters.kcenters(*a, **k)), g_kc2)
+    reg('eigenspectrum[right]', E.tm.eigenspectrum, lambda rng: (
+        g_T(rng)[0], {'left': False, 'n_eigs': 2}, False))
+    reg('mfpts[populations]', E.core.mfpts, lambda rng: (
+        (lambda t: (t[0],))(g_tpt(rng)[:1] + ()), {}, False))
+    for nm in ('reactive_fluxes', 'net_fluxes', 'reactive_populations'):
+        reg(nm + '[populations]', getattr(E.tpt, nm), lambda rng: (
+            (lambda t: ((t[0], t[1], t[2]), {'populations': t[3]}))(
+                g_tpt(rng)) + (False,)))
+    reg('joint_counts[XY]', E.mi.joint_counts, lambda rng: (
+        (lambda X: (X, ((X[:, :1] + 1) % 3).astype(np.int16)))(g_feat(rng)),
+        {}, False))
+    reg('weighted_mi[plain]', E.mi.weighted_mi, lambda rng: (
+        g_w(rng)[0], {'normalize': False}, True))
+    reg('assigns_to_counts[n_states]', E.tm.assigns_to_counts, lambda rng: (
+        g_assigns(rng)[0], {'lag_time': 2, 'max_n_states': 6}, False))
 
     # --- ragged arrays
     def g_ra(rng):
